@@ -224,7 +224,12 @@ def run_path(I, c, fn, module, res):
                     ctx.oblige(I.oname('sets[%s]' % k, None), z3.BoolVal(False), 'post')
                     continue
                 want = I.pure_eval(e, old)
-                g = I.as_goal(I.equal(slf.attrs[k], want))
+                from .vals import SStream as _SS, SObj as _SO
+                if isinstance(want, (_SS, _SO)):
+                    # a reference: the attribute must be the very object the entry state designates
+                    g = z3.BoolVal(slf.attrs[k] is I.pure_eval(e, pf))
+                else:
+                    g = I.as_goal(I.equal(slf.attrs[k], want))
                 ctx.oblige(I.oname('sets[%s]' % k, None), g, 'post')
             for cls, cond in c.raises.items():
                 g = I.as_goal(I.pure_eval(cond, old))
